@@ -20,8 +20,18 @@ package main
 import (
 	"fmt"
 	"math/rand"
+	"sort"
 	"strings"
+
+	promparser "github.com/prometheus/prometheus/promql/parser"
 )
+
+func sp(v string) string {
+	if v == "" {
+		return ""
+	}
+	return " " + v
+}
 
 type c01Slot struct {
 	name string
@@ -113,6 +123,45 @@ var c01SlotShapes = map[string][]string{
 	"alabelv":   {`"{{ bad"`, `"{{ $labels.job }}"`, `"{{ .Foo | nope }}"`},
 	"annv":      {`"{{ bad"`, `"{{ end }}"`, `"{{ .Foo | nope }}"`},
 	"rlabelv":   {`"{{ bad"`},
+}
+
+// duplicated keys INSIDE a labels / annotations mapping, for every pair of value shapes (a null in either position, an empty
+// string, a plain value): yaml.v3 refuses any repeated key whatever its value
+var c01DupValueShapes = []string{``, `~`, `""`, `x`}
+var c01MapSlots = []string{"glabels", "alabels", "anns", "rlabels"}
+
+// c01FunctionCalls: one minimal well-typed call of EVERY function the PromQL parser knows (experimental ones included), built
+// from the parser's own signature table: whatever pint accepts as an expression, Prometheus must be able to load.
+func c01FunctionCalls() []string {
+	var names []string
+	for name := range promparser.Functions {
+		names = append(names, name)
+	}
+	sort.Strings(names)
+	var out []string
+	for _, name := range names {
+		f := promparser.Functions[name]
+		var args []string
+		for i, t := range f.ArgTypes {
+			if f.Variadic != 0 && i >= len(f.ArgTypes)-1 && name != "label_join" {
+				break // optional trailing arguments are left out
+			}
+			switch t {
+			case promparser.ValueTypeVector:
+				args = append(args, "up")
+			case promparser.ValueTypeMatrix:
+				args = append(args, "up[5m]")
+			case promparser.ValueTypeScalar:
+				args = append(args, "0.5")
+			case promparser.ValueTypeString:
+				args = append(args, `'job'`)
+			default:
+				args = append(args, "up")
+			}
+		}
+		out = append(out, `"`+name+"("+strings.Join(args, ", ")+`)"`)
+	}
+	return out
 }
 
 type c01Deviation struct {
@@ -328,6 +377,17 @@ func c01Catalogue(r *rand.Rand, extra int) []c01Deviation {
 		for _, a := range c01Anchors {
 			core = append(core, c01Deviation{slot: s, shape: a, op: "alias"})
 		}
+	}
+	for _, ms := range c01MapSlots {
+		for _, a := range c01DupValueShapes {
+			for _, b := range c01DupValueShapes {
+				sh := "\n\x01dup:" + sp(a) + "\n\x01other: y\n\x01dup:" + sp(b)
+				core = append(core, c01Deviation{slot: ms, shape: sh, op: "value"})
+			}
+		}
+	}
+	for i, call := range c01FunctionCalls() {
+		core = append(core, c01Deviation{slot: []string{"aexpr", "rexpr"}[i%2], shape: call, op: "value"})
 	}
 	for _, pat := range c01NamePatterns {
 		core = append(core, c01Deviation{slot: "gname", shape: pat, op: "names"})
